@@ -185,7 +185,7 @@ def rand_spec(rng, group):
 # which input kinds a spec group is defined on
 DOM = {"wd": ["ymd", "ymdT", "ywd", "ywdT", "yd", "ymcw"], "dom": ["ymd", "ymd", "ymdT", "ymdT", "ywd", "yd", "ywdT"],
        "mon": ["ymd", "ymd", "ymdT", "ymdT", "ywd", "yd", "ywdT"], "wk": ["ywd", "ywdT"],
-       "hms": ["ymdT", "ymdT", "time", "ywdT"], "/hms": ["ymdT", "ymdT", "time", "ywdT"], "/d": ["ymd", "ymdT", "ywd", "yd", "ywdT"],
+       "hms": ["ymdT", "ymdT", "time", "ywdT"], "/hms": ["ymdT", "ymdT", "time", "ywdT", "epoch"], "/d": ["ymd", "ymdT", "ywd", "yd", "ywdT"],
        "/mo": ["ymd", "ymd", "ymdT", "ymdT", "ywd", "yd", "ywdT"]}
 
 
@@ -195,6 +195,10 @@ def rand_value(rng, ikind, bnd):
     s = rng.choice([0, 0, 1, 59, 60, 3599, 3600, 43200, 86340, 86399, 86370, rng.randrange(86400), rng.randrange(86400)])
     if ikind == "time":
         return None, s
+    if ikind == "epoch":
+        # seconds since 1970 read with -i %s: the value is held as one number, rounded by its own routine
+        # (not before 1970: a stdin line scanned for %s does not take the minus sign along)
+        return rng.randrange(cal.ORD_UNIX + 1, cal.ORD_UNIX + 40000) if rng.random() < .8 or o <= cal.ORD_UNIX else o, s
     if ikind.endswith("T"):
         return o, s
     return o, None
@@ -204,6 +208,8 @@ def text_of(ikind, o, s):
     """acceptable texts"""
     if ikind == "time":
         return (hms(s),)
+    if ikind == "epoch":
+        return ("%d" % ((o - cal.ORD_UNIX) * 86400 + s),)
     K = ikind.rstrip("T")
     ts = addsweep.ktext(K, o)
     if s is None:
@@ -228,7 +234,9 @@ def group_task(task):
         sargs = [spec_text(rng, sp) for sp in specs]
         okind = ikind
         ofmt = []
-        if ikind != "time" and rng.random() < .3:
+        if ikind == "epoch":
+            ofmt = ["-i", "%s", "-f", "%s"]
+        elif ikind != "time" and rng.random() < .3:
             # print in another calendar: stale helper fields of the rounded value show up there
             okind = rng.choice([k for k in ("ymd", "ywd", "yd") if k != ikind.rstrip("T")] if ikind != "ldn" else ["ymd"]) + ("T" if ikind.endswith("T") else "")
             ofmt = ["-f", {"ymd": "%F", "ywd": "%G-W%V-%u", "yd": "%Y-%j"}[okind.rstrip("T")] + ("T%T" if ikind.endswith("T") else "")]
@@ -250,7 +258,7 @@ def group_task(task):
         inputs = [text_of(ikind, o, s)[0] for (o, s) in vals]
         r = run(argv, stdin=("\n".join(inputs) + "\n").encode(), cpu=10, wall=120)
         sh.procs += 1
-        cls0 = (ikind + (">" + okind if ofmt else ""), "+".join(sp[0] for sp in specs), "next" if nxt else "nonext")
+        cls0 = (ikind + (">" + okind if ofmt and ikind != "epoch" else ""), "+".join(sp[0] for sp in specs), "next" if nxt else "nonext")
         if sh.check_san(r, "round", "round:%s:%s" % (ikind, cls0[1])):
             continue
         got, crash = core.align_lines(inputs, r)
@@ -277,7 +285,7 @@ def group_task(task):
         if outs:
             sh.sample(dict(cmd=core.shq(argv), input=inputs[0], output=got[0]), cap=2)
         # idempotence on the tool's own output, no oracle involved
-        if not nxt and outs and len(specs) == 1 and not ofmt:
+        if not nxt and outs and len(specs) == 1 and (not ofmt or ikind == "epoch"):
             r2 = run(argv, stdin=("\n".join(outs) + "\n").encode(), cpu=10, wall=120)
             sh.procs += 1
             if sh.check_san(r2, "idem", "idem:%s:%s" % (ikind, cls0[1])):
@@ -294,7 +302,7 @@ def group_task(task):
                            "echo %s | dround %s -> %r: rounding twice differs from rounding once" % (a, " ".join(sargs), b),
                            dict(argv=argv, stdin=a, expected=a, got=b), cls=cls0 + ("idem",))
         # -n results are strictly different
-        if nxt and len(specs) == 1 and not ofmt:
+        if nxt and len(specs) == 1 and (not ofmt or ikind == "epoch"):
             for inp, g, v, e in zip(inputs, got, vals, exp):
                 if v == e:
                     # a time of day that comes round again on the next day reads the same
